@@ -1232,3 +1232,555 @@ Proof.
       eapply inv4_upd' with (x := None);
         [exact H|exact Eg|apply LR_pc; exact HL|exact Fk|exact Fs|exact Fn|intros _; exact AG|left; reflexivity].
 Qed.
+
+(* ------------------------------------------------------------------ *)
+(* pre_start returned Ok: link to the supervisor, mark running           *)
+
+Lemma try_link_false w c s : snd (try_link w c s) = false -> fst (try_link w c s) = w.
+Proof.
+  unfold try_link. destruct (get w c); auto. destruct (get w s) as [b|]; auto.
+  destruct (_ || _); auto. destruct (a_kids b); auto. discriminate.
+Qed.
+
+Definition Flk (i s : nat) (ks : list nat) (j : nat) (a : actor) : actor :=
+  let a1 := if Nat.eqb s j then upd_kids a (Some (i :: remove_nat i ks)) else a in
+  if Nat.eqb i j then upd_pc (upd_notify (upd_sup a1 (Some s)) true) Spawned else a1.
+
+Lemma Flk_fields i s ks j a :
+  a_supq (Flk i s ks j a) = a_supq a /\ a_cfg (Flk i s ks j a) = a_cfg a
+  /\ a_armed (Flk i s ks j a) = a_armed a
+  /\ a_sup (Flk i s ks j a) = (if Nat.eqb i j then Some s else a_sup a)
+  /\ a_notify (Flk i s ks j a) = (if Nat.eqb i j then true else a_notify a)
+  /\ a_kids (Flk i s ks j a) = (if Nat.eqb s j then Some (i :: remove_nat i ks) else a_kids a).
+Proof. unfold Flk. destruct (Nat.eqb s j), (Nat.eqb i j); simpl; repeat split; reflexivity. Qed.
+
+Lemma inv4_link_ok links w i a s w1 p :
+  Inv4 links None w -> get w i = Some a -> c_link (a_cfg a) = Some s ->
+  a_pc a = InCb PreStart [] ROk p -> try_link w i s = (w1, true) ->
+  Inv4 links None (upd w1 i (fun a0 => upd_pc (upd_notify a0 true) Spawned)).
+Proof.
+  intros H Eg Hl Epc Etl. unfold try_link in Etl. rewrite Eg in Etl.
+  destruct (get w s) as [asup|] eqn:Egs; [|discriminate].
+  destruct (_ || _); [discriminate|]. destruct (a_kids asup) as [ks|] eqn:Eks; [|discriminate].
+  injection Etl as <-.
+  pose proof (i_act _ _ _ H i a Eg) as Aa.
+  assert (Hpre : a_sup a = None /\ a_notify a = false) by (apply (A2 _ _ _ _ Aa); rewrite Epc; reflexivity).
+  rewrite upd_upd.
+  assert (Hpw : pw (Flk i s ks) w
+            (upd (upd w s (fun a0 => upd_kids a0 (Some (i :: remove_nat i ks)))) i
+                 (fun a0 => upd_pc (upd_notify (upd_sup a0 (Some s)) true) Spawned))).
+  { eapply pw_ext; [|eapply pw_comp; apply pw_upd]. intros j b _. reflexivity. }
+  eapply inv4_pw with (x := None); [exact H|exact Hpw| | |left; reflexivity].
+  - intros j b Eb Ab. destruct (Flk_fields i s ks j b) as (F1 & F2 & F3 & F4 & F5 & F6). split.
+    + unfold LR. rewrite F1, F2, F3. auto.
+    + unfold Flk. destruct (Nat.eqb_spec i j) as [<-|Hne].
+      * rewrite Eg in Eb. injection Eb as <-.
+        assert (A1' : AInv (trace_of w) None i (if Nat.eqb s i then upd_kids a (Some (i :: remove_nat i ks)) else a)).
+        { destruct (Nat.eqb s i); [|exact Aa]. clear - Aa. ainv_tac. }
+        set (a1 := if Nat.eqb s i then _ else a) in *.
+        assert (E1 : a_cfg a1 = a_cfg a /\ a_pc a1 = a_pc a /\ a_notify a1 = a_notify a /\ a_sup a1 = a_sup a)
+          by (unfold a1; destruct (Nat.eqb s i); simpl; auto).
+        destruct E1 as (C1 & C2 & C3 & C4). clear - A1' C1 C2 C3 C4 Hl Epc Hpre.
+        destruct A1' as [a1' a2 a3 a4 a5 a6 a7 a8]. constructor; simpl; auto.
+        -- intros s0 E. injection E as <-. congruence.
+        -- intros; discriminate.
+        -- intros; discriminate.
+        -- intros Ha Hs. destruct (a6 Ha Hs) as [A|[_ A]]; [left; exact A|]. destruct Hpre. congruence.
+        -- intros _. apply a8. rewrite C2, Epc. reflexivity.
+      * destruct (Nat.eqb s j); [|exact Ab]. clear - Ab. ainv_tac.
+  - intros p' ap' ks' c Ep Ek' Hin. destruct Hpw as [_ g].
+    rewrite g in Ep. destruct (get w p') as [ap0|] eqn:E0; simpl in Ep; [|discriminate]. injection Ep as <-.
+    destruct (Flk_fields i s ks p' ap0) as (_ & _ & _ & _ & _ & F6). rewrite F6 in Ek'.
+    assert (Hgc : forall ac, get w c = Some ac -> c <> i ->
+              exists ac', get (upd (upd w s (fun a0 => upd_kids a0 (Some (i :: remove_nat i ks)))) i
+                 (fun a0 => upd_pc (upd_notify (upd_sup a0 (Some s)) true) Spawned)) c = Some ac'
+                 /\ a_sup ac' = a_sup ac /\ a_notify ac' = a_notify ac).
+    { intros ac Ec Hci. exists (Flk i s ks c ac). rewrite g, Ec. split; [reflexivity|].
+      destruct (Flk_fields i s ks c ac) as (_ & _ & _ & F4 & F5 & _).
+      assert (Hb : Nat.eqb i c = false) by (apply Nat.eqb_neq; congruence). rewrite F4, F5, Hb. auto. }
+    assert (Hgi : exists ai', get (upd (upd w s (fun a0 => upd_kids a0 (Some (i :: remove_nat i ks)))) i
+                 (fun a0 => upd_pc (upd_notify (upd_sup a0 (Some s)) true) Spawned)) i = Some ai'
+                 /\ a_sup ai' = Some s /\ a_notify ai' = true).
+    { exists (Flk i s ks i a). rewrite g, Eg. split; [reflexivity|].
+      destruct (Flk_fields i s ks i a) as (_ & _ & _ & F4 & F5 & _). rewrite F4, F5, Nat.eqb_refl. auto. }
+    destruct (Nat.eqb_spec s p') as [<-|Hne].
+    + injection Ek' as <-. destruct Hin as [<-|Hin].
+      * destruct Hgi as (ai' & A & B & C). eauto.
+      * apply in_remove_nat in Hin as [Hci Hin].
+        destruct (i_tree _ _ _ H s asup ks c Egs Eks Hin) as (ac & Ec & Es & En).
+        destruct (Hgc ac Ec Hci) as (ac' & A & B & C). exists ac'. rewrite B, C. auto.
+    + destruct (i_tree _ _ _ H p' ap0 ks' c E0 Ek' Hin) as (ac & Ec & Es & En).
+      assert (Hci : c <> i).
+      { intros ->. rewrite Eg in Ec. injection Ec as <-. destruct Hpre. congruence. }
+      destruct (Hgc ac Ec Hci) as (ac' & A & B & C). exists ac'. rewrite B, C. auto.
+Qed.
+
+(* ------------------------------------------------------------------ *)
+(* a callback returns                                                   *)
+
+Lemma backed_app c r t e : backed c r t = true -> backed c r (t ++ [e]) = true.
+Proof.
+  unfold backed. rewrite !has_ev_app. intros H.
+  apply orb_true_iff in H as [H|H]; [rewrite H; reflexivity|].
+  apply andb_true_iff in H as [H1 H2]. rewrite H1, H2. simpl. apply orb_true_r.
+Qed.
+
+Lemma tree_pw' F w w' :
+  TreeInv w -> pw F w w' ->
+  (forall j a, get w j = Some a ->
+     (forall ks', a_kids (F j a) = Some ks' -> exists ks, a_kids a = Some ks /\ incl ks' ks)
+     /\ a_sup (F j a) = a_sup a /\ (a_notify a = true -> a_notify (F j a) = true)) ->
+  TreeInv w'.
+Proof.
+  intros HT [_ g] HF p ap' ks' c Ep Ek Hin. rewrite g in Ep.
+  destruct (get w p) as [ap|] eqn:E; simpl in Ep; [|discriminate]. injection Ep as <-.
+  destruct (HF p ap E) as (A & _ & _). destruct (A ks' Ek) as (ks & Ek0 & Hincl).
+  destruct (HT p ap ks c E Ek0 (Hincl c Hin)) as (ac & Ec & Es & En).
+  exists (F c ac). rewrite g, Ec. simpl. destruct (HF c ac Ec) as (_ & -> & Hn). auto.
+Qed.
+
+Lemma nonabout_upd w i f a j :
+  get w i = Some a -> LR a (f a) -> nonabout w j -> nonabout (upd w i f) j.
+Proof. intros Eg HL N s y Hy. apply (N s y). eapply K_upd_incl; eauto. Qed.
+
+Lemma LR_status a v : LR a (upd_status a v).
+Proof. unfold LR. simpl. auto. Qed.
+
+Lemma inv4_after_cb links w i a c f p :
+  Inv4 links None w -> get w i = Some a -> a_pc a = InCb c [] f p -> a_armed a = true ->
+  Inv4 links None (after_cb (emit w (TExit i c f)) i c f).
+Proof.
+  intros H Eg Epc Harm.
+  pose proof (i_act _ _ _ H i a Eg) as Aa.
+  assert (Nt : noterm w i) by (eapply noterm_alive; eauto; discriminate).
+  set (e := TExit i c f). set (wx := emit w e).
+  assert (Egx : get wx i = Some a) by exact Eg.
+  assert (Ntx : noterm wx i) by (apply noterm_emit; [reflexivity|exact Nt]).
+  assert (Etx : trace_of wx = trace_of w ++ [e]) by reflexivity.
+  assert (HXd : subj_end e = Some i -> Inv4 links (Some i) wx).
+  { intros Es. apply inv4_emit with (x := None); auto.
+    - intros j Ej. rewrite Es in Ej. injection Ej as <-. auto.
+    - intros j b Ee. unfold e in Ee. injection Ee as -> -> ->. discriminate Es. }
+  assert (HXp : forall x', subj_end e = None -> (c = PostStart -> f <> ROk) -> Inv4 links x' wx).
+  { intros x' Es Hn. apply inv4_emit with (x := None); auto.
+    - intros j Ej. rewrite Es in Ej. discriminate.
+    - intros j b Ee. unfold e in Ee. injection Ee as -> -> ->. exfalso. apply Hn; reflexivity. }
+  assert (Hcf : forall t, (f = RErr t \/ f = RPanic t) -> c <> PreStart ->
+                cls (SFailed i t) (trace_of wx) = true /\ subj_end e = Some i).
+  { intros t Hf Hc. rewrite Etx. simpl. rewrite ending_of_app. unfold e. simpl. rewrite Nat.eqb_refl.
+    destruct Hf as [-> | ->]; destruct c; try congruence; simpl; rewrite Nat.eqb_refl; auto. }
+  assert (Dfin : forall t, (f = RErr t \/ f = RPanic t) -> c <> PreStart ->
+                 Inv4 links None (finish wx i (SFailed i t))).
+  { intros t Hf Hc. destruct (Hcf t Hf Hc) as [C S]. eapply inv4_finish; eauto. }
+  assert (Dfin5 : forall t, (f = RErr t \/ f = RPanic t) -> c <> PreStart ->
+                 Inv4 links None (finish (upd wx i (fun a0 => upd_status a0 5)) i (SFailed i t))).
+  { intros t Hf Hc. destruct (Hcf t Hf Hc) as [C S].
+    eapply inv4_finish with (a := upd_status a 5); auto.
+    - eapply inv4_upd' with (x := Some i);
+        [apply HXd; exact S|exact Egx|apply LR_status|reflexivity|reflexivity|reflexivity| |left; reflexivity].
+      clear. ainv_tac.
+    - rewrite get_upd_same, Egx. reflexivity.
+    - apply (noterm_upd wx i _ a i Egx (LR_status a 5) Ntx). }
+  assert (Didle : subj_end e = None -> c <> PostStart -> c <> PreStart -> c <> PostStop ->
+                  Inv4 links None (upd wx i (fun a0 => upd_pc a0 Idle))).
+  { intros Es Hc1 Hc2 Hc3.
+    eapply inv4_upd' with (x := None);
+      [apply HXp; [exact Es|intros; contradiction]|exact Egx|apply (LR_pc a (fun z => z)); apply LR_refl
+      |reflexivity|reflexivity|reflexivity| |left; reflexivity].
+    clear. ainv_tac; intros; discriminate. }
+  unfold after_cb. rewrite Egx.
+  destruct c as [| |m|ev|]; destruct f as [|t|t];
+    try (apply Dfin; [eauto|discriminate]); try (apply Dfin5; [eauto|discriminate]);
+    try (apply Didle; [reflexivity|discriminate|discriminate|discriminate]).
+  - (* pre_start Ok *)
+    destruct (c_link (a_cfg a)) as [s|] eqn:El.
+    + destruct (try_link wx i s) as [w1 ok] eqn:Etl. destruct ok.
+      * apply inv4_emit with (x := None); auto; try discriminate.
+        eapply inv4_link_ok with (w := wx); eauto. apply HXp; [reflexivity|discriminate].
+      * assert (E1 : w1 = wx) by (rewrite <- (try_link_false wx i s); rewrite Etl; reflexivity).
+        rewrite E1. eapply inv4_start_failed; eauto. apply HXp; [reflexivity|discriminate].
+    + apply inv4_emit with (x := None); auto; try discriminate.
+      assert (HP : Inv4 links None wx) by (apply HXp; [reflexivity|discriminate]).
+      eapply inv4_pw with (x := None); [exact HP|apply pw_upd| | |left; reflexivity].
+      * intros j b Eb Ab. cbv beta. destruct (Nat.eqb_spec i j) as [<-|Hne]; [|split; [apply LR_refl|exact Ab]].
+        rewrite Egx in Eb. injection Eb as <-. split; [unfold LR; simpl; auto|].
+        assert (Hpre : a_sup a = None /\ a_notify a = false)
+          by (apply (A2 _ _ _ _ Aa); rewrite Epc; reflexivity).
+        pose proof (A8 _ _ _ _ Ab) as a8'. rewrite Epc in a8'. specialize (a8' eq_refl).
+        clear - Ab Hpre a8'. ainv_tac; try (intros; discriminate).
+        intros Ha Hs. destruct (a6 Ha Hs) as [A|[_ A]]; [left; exact A|]. destruct Hpre. congruence.
+      * eapply tree_pw'; [exact (i_tree _ _ _ HP)|apply pw_upd|].
+        intros j b Eb. cbv beta. destruct (Nat.eqb i j); simpl; (split; [|auto]);
+          intros ks' E; exists ks'; (split; [exact E|apply incl_refl]).
+  - (* pre_start failed *)
+    eapply inv4_start_failed; eauto.
+  - eapply inv4_start_failed; eauto.
+  - (* post_start Ok: Idle, then ActorStarted to the supervisor *)
+    set (g := fun a0 => upd_pc (upd_status a0 2) Idle).
+    change (Inv4 links None (notify_supervisor (emit (upd w i g) e) i (SStarted i))).
+    assert (H1 : Inv4 links None (upd w i g)).
+    { eapply inv4_upd' with (x := None);
+        [exact H|exact Eg|unfold LR, g; simpl; auto|reflexivity|reflexivity|reflexivity| |left; reflexivity].
+      clear. unfold g. ainv_tac; intros; discriminate. }
+    assert (H2 : Inv4 links None (emit (upd w i g) e)).
+    { apply inv4_emit with (x := None); auto.
+      - intros j Ej. discriminate.
+      - intros j b Ee Eb. injection Ee as <-. rewrite get_upd_same, Eg in Eb. injection Eb as <-. reflexivity. }
+    assert (Na : nonabout w i).
+    { intros s y Hy Ey. destruct (is_terminal y) eqn:Ht; [exact (Nt s y Hy Ht Ey)|].
+      destruct y as [c0| |]; try discriminate. simpl in Ey. subst c0.
+      pose proof (Q2 _ _ _ (i_K _ _ _ H s) i Hy) as P.
+      rewrite (A8 _ _ _ _ Aa) in P; [discriminate|rewrite Epc; reflexivity]. }
+    eapply inv4_notify with (a := g a); [exact H2|rewrite get_emit, get_upd_same, Eg; reflexivity|reflexivity| |].
+    + intros c0 Ec. injection Ec as <-. split.
+      * change (trace_of (emit (upd w i g) e)) with (trace_of w ++ [e]).
+        rewrite post_start_ok_app. unfold e. rewrite Nat.eqb_refl. apply orb_true_r.
+      * apply nonabout_emit; [reflexivity|].
+        apply (nonabout_upd w i g a i Eg); [unfold LR, g; simpl; auto|exact Na].
+    + intros; discriminate.
+  - (* post_stop Ok *)
+    eapply inv4_finish; eauto.
+    left. rewrite Etx. simpl. rewrite ending_of_app. unfold e. simpl. rewrite Nat.eqb_refl.
+    apply backed_app. apply (A5 _ _ _ _ Aa _ _ _ Epc).
+Qed.
+
+(* ------------------------------------------------------------------ *)
+(* requests made through a cell                                         *)
+
+Lemma inv_armed w i a : Inv None w -> get w i = Some a -> a_pc a <> Done -> a_armed a = true.
+Proof.
+  intros H Eg Hn. specialize (H i). unfold InvA in H. rewrite Eg in H. simpl in H.
+  destruct H as (s & _ & _ & _ & (_ & _ & Harm & _)).
+  destruct (a_armed a) eqn:E; auto.
+Qed.
+
+Lemma inv4_retag links w i : Inv4 links None w -> Inv4 links (Some i) w.
+Proof.
+  intros H. eapply inv4_pw with (x := None) (F := fun _ a => a);
+    [exact H|apply pw_refl| |exact (i_tree _ _ _ H)|right; left; reflexivity].
+  intros j b Eb Ab. split; [apply LR_refl|]. destruct Ab. constructor; auto.
+  intros Ha _. apply A15; [exact Ha|discriminate].
+Qed.
+
+Lemma inv4_emit_plain links x w e :
+  Inv4 links x w -> is_sup_enter e = false -> subj_end e = None ->
+  (forall j, e <> TExit j PostStart ROk) -> Inv4 links x (emit w e).
+Proof.
+  intros H Hp Hs Hn. apply inv4_emit with (x := x); auto.
+  - intros j E. rewrite Hs in E. discriminate.
+  - intros j b E. exfalso. apply (Hn j E).
+Qed.
+
+Lemma inv4_req_send links w i m : Inv4 links None w -> Inv4 links None (req_send w i m).
+Proof.
+  intros H. unfold req_send. destruct (is_created w i); [|exact H].
+  unfold do_send. destruct (get w i) as [a|] eqn:Eg; [|exact H].
+  destruct (can_send a); apply inv4_emit_plain; try reflexivity; try (intros; discriminate); [|exact H].
+  eapply inv4_upd' with (x := None);
+    [exact H|exact Eg|unfold LR; simpl; auto|reflexivity|reflexivity|reflexivity| |left; reflexivity].
+  ainv_tac. intros Hm. apply a4. apply in_marker_app in Hm. exact Hm.
+Qed.
+
+Lemma inv4_req_kill links w i : Inv4 links None w -> Inv4 links None (req_kill w i).
+Proof.
+  intros H. unfold req_kill. destruct (is_created w i); [|exact H].
+  apply inv4_do_kill.
+  - apply inv4_emit_plain; auto; intros; discriminate.
+  - intros a _ _. left. rewrite trace_of_emit, has_ev_app. simpl. rewrite Nat.eqb_refl. apply orb_true_r.
+Qed.
+
+Lemma inv4_req_stop links w i r : Inv4 links None w -> Inv4 links None (req_stop w i r).
+Proof.
+  intros H. unfold req_stop. destruct (is_created w i); [|exact H].
+  assert (H1 : Inv4 links None (emit w (TStopReq i r))) by (apply inv4_emit_plain; auto; intros; discriminate).
+  unfold do_stop. destruct (get (emit w (TStopReq i r)) i) as [a|] eqn:Eg; [|exact H1].
+  destruct (_ || _); [exact H1|].
+  eapply inv4_upd' with (x := None);
+    [exact H1|exact Eg|unfold LR; simpl; auto|reflexivity|reflexivity|reflexivity| |left; reflexivity].
+  ainv_tac. intros r0 E. destruct (a_ports a); [|discriminate]. injection E as <-.
+  rewrite trace_of_emit, has_ev_app. simpl. rewrite Nat.eqb_refl, onat_eqb_refl. apply orb_true_r.
+Qed.
+
+Lemma AInv_drain tr x i a :
+  has_ev (ev_drain i) tr = true -> AInv tr x i a -> AInv tr x i (drain_upd a).
+Proof.
+  intros Hd Aa. unfold drain_upd. destruct (Nat.ltb (a_status a) 5); simpl;
+    (destruct (a_marker a); simpl; [|destruct (a_ports a); simpl]); ainv_tac.
+Qed.
+
+Lemma drain_upd_sup a :
+  a_supq (drain_upd a) = a_supq a /\ a_cfg (drain_upd a) = a_cfg a /\ a_armed (drain_upd a) = a_armed a
+  /\ a_kids (drain_upd a) = a_kids a /\ a_sup (drain_upd a) = a_sup a /\ a_notify (drain_upd a) = a_notify a.
+Proof.
+  unfold drain_upd. destruct (Nat.ltb (a_status a) 5); simpl;
+    (destruct (a_marker a); simpl; [|destruct (a_ports a); simpl]); repeat split; reflexivity.
+Qed.
+
+Lemma inv4_req_drain links w i : Inv4 links None w -> Inv4 links None (req_drain w i).
+Proof.
+  intros H. unfold req_drain. destruct (is_created w i); [|exact H].
+  assert (H1 : Inv4 links None (emit w (TDrainReq i))) by (apply inv4_emit_plain; auto; intros; discriminate).
+  unfold do_drain. destruct (get (emit w (TDrainReq i)) i) as [a|] eqn:Eg; [|exact H1].
+  destruct (negb (created a)); [exact H1|].
+  change (Inv4 links None (upd (emit w (TDrainReq i)) i drain_upd)).
+  destruct (drain_upd_sup a) as (D1 & D2 & D3 & D4 & D5 & D6).
+  eapply inv4_upd' with (x := None);
+    [exact H1|exact Eg|unfold LR; rewrite D1, D2, D3; auto|exact D4|exact D5|exact D6| |left; reflexivity].
+  apply AInv_drain. rewrite trace_of_emit, has_ev_app. simpl. rewrite Nat.eqb_refl. apply orb_true_r.
+Qed.
+
+Lemma inv4_do_eff links w e :
+  Inv4 links None w -> Inv4 links None (do_eff w e).
+Proof.
+  intros H. destruct e; simpl; auto using inv4_req_send, inv4_req_stop, inv4_req_kill, inv4_req_drain.
+Qed.
+
+(* ------------------------------------------------------------------ *)
+(* one segment of a poll                                                *)
+
+Lemma AInv_pc_cb tr x i a c r f p r' f' p' :
+  a_pc a = InCb c r f p -> AInv tr x i a -> AInv tr x i (upd_pc a (InCb c r' f' p')).
+Proof.
+  intros Epc Aa. destruct Aa as [a1 a2 a3 a4 a5 a6 a7 a8]. rewrite Epc in *. constructor; simpl; auto.
+  intros rest f0 p0 E. injection E as -> _ _ _. eapply a5. reflexivity.
+Qed.
+
+Lemma inv4_seg links w i :
+  Inv None w -> Inv4 links None w -> Inv4 links None (fst (seg w i)).
+Proof.
+  intros HI H. unfold seg. destruct (get w i) as [a|] eqn:Eg; [|exact H].
+  pose proof (i_act _ _ _ H i a Eg) as Aa.
+  destruct (a_pc a) as [| | |c rest f parked| |] eqn:Epc; try exact H.
+  - (* NotStarted *)
+    assert (Harm : a_armed a = true) by (eapply inv_armed; eauto; rewrite Epc; discriminate).
+    destruct (negb (Nat.eqb (a_status a) 0)); simpl.
+    + eapply inv4_start_failed; eauto using inv4_retag. eapply noterm_alive; eauto. discriminate.
+    + eapply inv4_start_cb with (a := a); eauto; try reflexivity.
+      * unfold same_sup_fields; simpl; auto.
+      * clear. ainv_tac.
+      * rewrite Epc. exact I.
+      * discriminate.
+  - (* Spawned *)
+    assert (Harm : a_armed a = true) by (eapply inv_armed; eauto; rewrite Epc; discriminate).
+    simpl. rewrite <- (upd_id w i).
+    eapply inv4_start_cb with (a := a) (F := fun z => z); eauto; try reflexivity.
+    + unfold same_sup_fields; auto.
+    + rewrite Epc. exact I.
+    + discriminate.
+  - (* inside a callback *)
+    assert (Harm : a_armed a = true) by (eapply inv_armed; eauto; rewrite Epc; discriminate).
+    assert (Hadv : forall r' p', Inv4 links None (upd w i (fun a0 => upd_pc a0 (InCb c r' f p')))).
+    { intros r' p'. eapply inv4_upd' with (x := None);
+        [exact H|exact Eg|apply (LR_pc a (fun z => z)); apply LR_refl|reflexivity|reflexivity|reflexivity
+        |apply AInv_pc_cb with (1 := Epc)|left; reflexivity]. }
+    assert (Hadv_e : forall e r' p', is_sup_enter e = false -> subj_end e = None ->
+                     (forall j, e <> TExit j PostStart ROk) ->
+                     Inv4 links None (upd (emit w e) i (fun a0 => upd_pc a0 (InCb c r' f p')))).
+    { intros e r' p' E1 E2 E3. rewrite upd_emit. apply inv4_emit_plain; auto. }
+    destruct rest as [|e r]; simpl.
+    + eapply inv4_after_cb; eauto.
+    + destruct e as [g| |b m|b r0|b|b]; simpl.
+      * destruct (is_open w g); simpl.
+        -- destruct parked; [apply Hadv_e; auto; intros; discriminate|apply Hadv].
+        -- destruct parked; simpl; [exact H|apply Hadv_e; auto; intros; discriminate].
+      * apply Hadv_e; auto; intros; discriminate.
+      * apply inv4_req_send. apply Hadv.
+      * apply inv4_req_stop. apply Hadv.
+      * apply inv4_req_kill. apply Hadv.
+      * apply inv4_req_drain. apply Hadv.
+  - (* Idle *)
+    assert (Harm : a_armed a = true) by (eapply inv_armed; eauto; rewrite Epc; discriminate).
+    destruct (a_sig a) eqn:Esig; simpl.
+    + unfold consume_sig.
+      apply (inv4_sig_exit links w i a (fun z => z) None H Eg Harm Esig (LR_refl a)); auto.
+      unfold same_sup_fields; auto.
+    + destruct (a_stop a) as [r0|] eqn:Estop; simpl.
+      * unfold graceful_exit. rewrite upd_upd.
+        eapply inv4_start_cb with (a := a); eauto; try reflexivity.
+        -- unfold same_sup_fields; simpl; auto.
+        -- clear - Epc. ainv_tac; try (intros; discriminate). rewrite Epc. intros; discriminate.
+        -- rewrite Epc. exact I.
+        -- intros _. simpl. unfold backed. rewrite (A3 _ _ _ _ Aa r0 Estop). reflexivity.
+      * destruct (a_supq a) as [|e t] eqn:Esup; simpl.
+        -- destruct (a_msgq a) as [|[m|] t] eqn:Emsg; simpl.
+           ++ exact H.
+           ++ eapply inv4_start_cb with (a := a); eauto; try reflexivity.
+              ** unfold same_sup_fields; simpl; auto.
+              ** intros Ab. pose proof (A4 _ _ _ _ Ab) as a4'. rewrite Emsg in a4'.
+                 clear - Ab a4'. ainv_tac; try (intros Hm; apply a4'; right; exact Hm).
+              ** rewrite Epc. exact I.
+              ** discriminate.
+           ++ unfold graceful_exit. rewrite upd_upd.
+              eapply inv4_start_cb with (a := a); eauto; try reflexivity.
+              ** unfold same_sup_fields; simpl; auto.
+              ** intros Ab. pose proof (A4 _ _ _ _ Ab) as a4'. rewrite Emsg in a4'.
+                 clear - Ab a4' Epc. ainv_tac; try (rewrite Epc; intros; discriminate);
+                   try (intros Hm; apply a4'; right; exact Hm).
+              ** rewrite Epc. exact I.
+              ** intros _. simpl. unfold backed. simpl.
+                 rewrite (A4 _ _ _ _ Aa); [apply orb_true_r|rewrite Emsg; left; reflexivity].
+        -- eapply inv4_start_cb with (a := a); eauto; try reflexivity.
+           ++ unfold same_sup_fields; simpl; auto.
+           ++ clear. ainv_tac.
+           ++ rewrite Epc. exact I.
+           ++ discriminate.
+Qed.
+
+(* ------------------------------------------------------------------ *)
+(* resuming a parked callback, aborting a task                          *)
+
+Lemma inv4_resume links w i :
+  Inv None w -> Inv4 links None w -> Inv4 links None (fst (resume w i)).
+Proof.
+  intros HI H. unfold resume. destruct (get w i) as [a|] eqn:Eg; [|exact H].
+  pose proof (i_act _ _ _ H i a Eg) as Aa.
+  destruct (a_pc a) as [| | |c rest f p| |] eqn:Epc; try exact H.
+  destruct (a_sig a) eqn:Esig; [|exact H]. cbn [fst].
+  assert (Harm : a_armed a = true) by (eapply inv_armed; eauto; rewrite Epc; discriminate).
+  assert (Nt : noterm w i) by (eapply noterm_alive; eauto; discriminate).
+  unfold consume_sig.
+  set (w1 := upd w i (fun a0 => upd_sig a0 false true)).
+  assert (H1 : Inv4 links (Some i) w1).
+  { eapply inv4_upd' with (x := None);
+      [exact H|exact Eg|apply (LR_sig a (fun z => z)); apply LR_refl|reflexivity|reflexivity|reflexivity
+      | |right; left; reflexivity].
+    intros _. clear - Aa. ainv_tac. intros; discriminate. }
+  assert (Nt1 : noterm w1 i).
+  { apply (noterm_upd w i _ a i Eg); [apply (LR_sig a (fun z => z)); apply LR_refl|exact Nt]. }
+  eapply inv4_killed_exit with (a := upd_sig a false true).
+  - apply inv4_emit with (x := Some i); auto.
+    + intros j Ej. destruct c; try discriminate. injection Ej as <-. auto.
+    + intros; discriminate.
+  - rewrite get_emit. unfold w1. rewrite get_upd_same, Eg. reflexivity.
+  - exact Harm.
+  - apply noterm_emit; [reflexivity|exact Nt1].
+  - reflexivity.
+  - intros Hc. change (trace_of (emit w1 (TCancel i c))) with (trace_of w ++ [TCancel i c]). split.
+    + rewrite ending_of_app, end_step_other; [apply (A7 _ _ _ _ Aa Harm); discriminate|].
+      destruct c; try discriminate. congruence.
+    + simpl. destruct (A6 _ _ _ _ Aa Harm Esig) as [A|[A _]]; [left|right; exact A].
+      rewrite has_ev_app, A. reflexivity.
+Qed.
+
+Lemma inv4_abort links w i :
+  Inv None w -> Inv4 links None w -> Inv4 links None (abort w i).
+Proof.
+  intros HI H. unfold abort. destruct (get w i) as [a|] eqn:Eg; [|exact H].
+  pose proof (i_act _ _ _ H i a Eg) as Aa.
+  set (ev := if a_notify a then Some (STerminated i false (Some R_CANCELLED)) else None).
+  assert (Nt : a_armed a = true -> noterm w i) by (intros; eapply noterm_alive; eauto; discriminate).
+  assert (HA : Inv4 links (Some i) (emit w (TAborted i))).
+  { apply inv4_emit with (x := None); auto; intros; discriminate. }
+  assert (Hev : forall tr2, ending_of i tr2 EndNone = EndNone \/ a_sup a = None ->
+                has_ev (ev_abort i) tr2 = true ->
+                forall e, ev = Some e -> about e = i /\ is_terminal e = true /\ (cls e tr2 = true \/ a_sup a = None)).
+  { intros tr2 He Hab e Ee. unfold ev in Ee. destruct (a_notify a); [|discriminate]. injection Ee as <-.
+    split; [reflexivity|]. split; [reflexivity|]. destruct He as [He|He]; [left|right; exact He].
+    simpl. rewrite He. exact Hab. }
+  assert (Hquiet : a_armed a = true -> Inv4 links None (cleanup (emit w (TAborted i)) i ev)).
+  { intros Harm. eapply inv4_cleanup with (a := a); eauto.
+    - apply noterm_emit; [reflexivity|auto].
+    - apply Hev.
+      + left. rewrite trace_of_emit, ending_of_app. simpl. apply (A7 _ _ _ _ Aa Harm). discriminate.
+      + rewrite trace_of_emit, has_ev_app. simpl. rewrite Nat.eqb_refl. apply orb_true_r. }
+  destruct (a_pc a) as [| | |c rest f p| |] eqn:Epc; try exact H;
+    try (apply Hquiet; eapply inv_armed; eauto; rewrite Epc; discriminate).
+  destruct p; [|exact H].
+  assert (Harm : a_armed a = true) by (eapply inv_armed; eauto; rewrite Epc; discriminate).
+  eapply inv4_cleanup with (a := a); eauto.
+  - apply inv4_emit with (x := Some i); auto.
+    + intros j Ej. destruct c; try discriminate. injection Ej as <-. split; [auto|].
+      apply noterm_emit; [reflexivity|auto].
+    + intros; discriminate.
+  - apply noterm_emit; [reflexivity|]. apply noterm_emit; [reflexivity|auto].
+  - apply Hev.
+    + rewrite !trace_of_emit, !ending_of_app.
+      destruct c; try (left; simpl; apply (A7 _ _ _ _ Aa Harm); discriminate).
+      right. apply (A2 _ _ _ _ Aa). rewrite Epc. reflexivity.
+    + rewrite !trace_of_emit, !has_ev_app. simpl. rewrite Nat.eqb_refl, orb_true_r. reflexivity.
+Qed.
+
+(* ------------------------------------------------------------------ *)
+(* a poll, a label, a schedule                                          *)
+
+Lemma inv4_segs links fuel w i :
+  Inv None w -> pre_seg w i -> Inv4 links None w -> Inv4 links None (segs fuel w i).
+Proof.
+  revert w. induction fuel as [|k IH]; intros w HI Hpre H; simpl; [exact H|].
+  pose proof (inv4_seg links w i HI H) as H'.
+  destruct (seg w i) as [w' go] eqn:E. simpl in H'.
+  destruct (inv_seg w i w' go HI Hpre E) as [HI' Hgo].
+  destruct go; [|exact H']. apply IH; auto. apply unparked_pre. apply Hgo. reflexivity.
+Qed.
+
+Lemma inv4_poll links fuel w i :
+  Inv None w -> Inv4 links None w -> Inv4 links None (poll fuel w i).
+Proof.
+  intros HI H. unfold poll. pose proof (inv4_resume links w i HI H) as H'.
+  destruct (resume w i) as [w' go] eqn:E. simpl in H'.
+  destruct (inv_resume w i w' go HI E) as [HI' Hgo].
+  destruct go; [|exact H']. apply inv4_segs; auto.
+Qed.
+
+Lemma inv4_step links w l :
+  Inv None w -> Inv4 links None w -> Inv4 links None (step w l).
+Proof.
+  intros HI H. destruct l as [i|i m|i r|i|i|g|i|i fuel]; simpl.
+  - destruct (get w i) as [a|] eqn:Eg; [|exact H].
+    destruct (a_pc a) eqn:Epc; try exact H.
+    eapply inv4_upd' with (x := None);
+      [exact H|exact Eg|apply (LR_pc a (fun z => z)); apply LR_refl|reflexivity|reflexivity|reflexivity
+      | |left; reflexivity].
+    intros Aa. pose proof (A2 _ _ _ _ Aa) as a2'. pose proof (A8 _ _ _ _ Aa) as a8'. rewrite Epc in a2', a8'.
+    clear - Aa a2' a8'. ainv_tac; intros; discriminate.
+  - apply inv4_req_send. exact H.
+  - apply inv4_req_stop. exact H.
+  - apply inv4_req_kill. exact H.
+  - apply inv4_req_drain. exact H.
+  - destruct H as [h1 h2 h3 h4 h5]. constructor; [exact h1|exact h2|exact h3|exact h4|].
+    intros s. destruct (h5 s) as [q1 q2 q3 q4]. constructor; [exact q1|exact q2|exact q3|exact q4].
+  - apply inv4_abort; assumption.
+  - apply inv4_poll; assumption.
+Qed.
+
+Lemma inv4_run links ls w :
+  Inv None w -> Inv4 links None w -> Inv4 links None (run w ls).
+Proof.
+  unfold run. revert w. induction ls as [|l t IH]; simpl; intros w HI H; [exact H|].
+  apply IH; [apply inv_step; exact HI|apply inv4_step; assumption].
+Qed.
+
+Lemma nth_map_link (cfgs : list cfg) c :
+  nth c (map c_link cfgs) None =
+  match nth_error (map new_actor cfgs) c with Some a => c_link (a_cfg a) | None => None end.
+Proof.
+  revert c. induction cfgs as [|x t IH]; intros [|c]; simpl; auto.
+Qed.
+
+Lemma inv4_init cfgs msgs : Inv4 (map c_link cfgs) None (init cfgs msgs).
+Proof.
+  assert (Hget : forall j a, get (init cfgs msgs) j = Some a -> exists c, a = new_actor c).
+  { intros j a. unfold get, init. simpl. rewrite nth_error_map.
+    destruct (nth_error cfgs j) as [c|]; simpl; [|discriminate]. intros E. injection E as <-. eauto. }
+  assert (HK : forall s, K (init cfgs msgs) s = []).
+  { intros s. unfold K, supq_of. simpl. destruct (get (init cfgs msgs) s) as [a|] eqn:E; auto.
+    destruct (Hget s a E) as (c & ->). reflexivity. }
+  constructor.
+  - intros c. unfold link_of, get, init. simpl. apply nth_map_link.
+  - reflexivity.
+  - intros i a Eg. destruct (Hget i a Eg) as (c & ->).
+    constructor; simpl; auto; try (intros; discriminate); try (intros []).
+  - intros p ap ks c Ep Ek Hin. destruct (Hget p ap Ep) as (c0 & ->). simpl in Ek.
+    injection Ek as <-. destruct Hin.
+  - intros s. constructor; rewrite HK; simpl; auto; intros ? [].
+Qed.
+
+(* ------------------------------------------------------------------ *)
+(* the oracle accepts every trace of the model                          *)
+
+Theorem C04_oracle_sound_proof cfgs msgs ls :
+  check_C04 (map c_link cfgs) (trace_of (run (init cfgs msgs) ls)) = true.
+Proof.
+  unfold check_C04.
+  apply (i_chk _ _ _ (inv4_run (map c_link cfgs) ls _ (inv_init cfgs msgs) (inv4_init cfgs msgs))).
+Qed.
